@@ -55,6 +55,9 @@ type FObs struct {
 	Kind  string   `json:"kind,omitempty"` // text | names | num | retr (num = announced size)
 	Text  hx.B     `json:"text,omitempty"`
 	Names []string `json:"names,omitempty"`
+	// LIST/NLST: the lines received, and what the directories inside the root held just before
+	Listed []LEntry `json:"listed,omitempty"`
+	Truth  []LEntry `json:"truth,omitempty"`
 	Num   int64    `json:"num,omitempty"`
 }
 
@@ -169,22 +172,62 @@ func (cl *client) transfer(line string, upload []byte, download bool) ([]int, st
 	return codes, text, got, nil
 }
 
-func listNames(data []byte, detailed bool) []string {
-	var names []string
+// LEntry is one line of a listing: the name and, for LIST, "mode|size|mtime" as printed.
+type LEntry struct {
+	Name string `json:"name"`
+	Meta string `json:"meta,omitempty"`
+}
+
+// one LIST line is mode, size right-aligned in 12 columns, " Jan _2 15:04 ", name
+func parseListing(data []byte, detailed bool) []LEntry {
+	var out []LEntry
 	for _, l := range strings.Split(string(data), "\r\n") {
 		if l == "" {
 			continue
 		}
-		if detailed {
-			// mode(10) size(12) " Jan _2 15:04 " name
-			if len(l) > 36 {
-				l = l[36:]
-			}
+		if !detailed {
+			out = append(out, LEntry{Name: l})
+			continue
 		}
-		names = append(names, l)
+		k := strings.IndexAny(l, " 0123456789")
+		if k < 0 || len(l) < k+26 {
+			out = append(out, LEntry{Name: l, Meta: "?unparsed"})
+			continue
+		}
+		out = append(out, LEntry{Name: l[k+26:], Meta: l[:k] + "|" + strings.TrimSpace(l[k:k+12]) + "|" + strings.TrimSpace(l[k+12:k+26])})
 	}
-	sort.Strings(names)
-	return names
+	sort.Slice(out, func(a, b int) bool { return out[a].Name+"\x00"+out[a].Meta < out[b].Name+"\x00"+out[b].Meta })
+	return out
+}
+
+// ground truth for a listing, taken from the host right before the command: every entry of
+// every directory inside the root, with the metadata a LIST line would show for it
+func (w window) insideEntries(detailed bool) []LEntry {
+	var out []LEntry
+	seen := map[LEntry]bool{}
+	info, err := os.Lstat(w.root)
+	if err != nil || !info.IsDir() {
+		return out
+	}
+	filepath.Walk(w.root, func(p string, info os.FileInfo, err error) error {
+		if err != nil || p == w.root {
+			return nil
+		}
+		e := LEntry{Name: info.Name()}
+		if detailed {
+			size := strconv.Itoa(int(info.Size()))
+			if len(size) > 12 {
+				size = size[:12]
+			}
+			e.Meta = info.Mode().String() + "|" + size + "|" + strings.TrimSpace(info.ModTime().Format(" Jan _2 15:04 "))
+		}
+		if !seen[e] {
+			seen[e] = true
+			out = append(out, e)
+		}
+		return nil
+	})
+	return out
 }
 
 // runFtp drives one session of the real service; crash != "" when the service failed.
@@ -237,6 +280,10 @@ func runFtp(w window, ops []Op) (ob FtpObs, crash string) {
 		var text string
 		var data []byte
 		line := o.V + " " + string(o.P)
+		var truth []LEntry
+		if o.V == "LIST" || o.V == "NLST" {
+			truth = w.insideEntries(o.V == "LIST")
+		}
 		switch o.V {
 		case "PWD", "CDUP", "APPE":
 			fo.Codes, text, err = cl.cmd(o.V)
@@ -265,7 +312,13 @@ func runFtp(w window, ops []Op) (ob FtpObs, crash string) {
 				}
 			}
 		case "LIST", "NLST":
-			fo.Kind, fo.Names = "names", listNames(data, o.V == "LIST")
+			fo.Kind = "names"
+			fo.Listed = parseListing(data, o.V == "LIST")
+			fo.Names = []string{}
+			for _, e := range fo.Listed {
+				fo.Names = append(fo.Names, e.Name)
+			}
+			fo.Truth = truth
 		case "SIZE":
 			if has(fo.Codes, 213) {
 				if n, e := strconv.ParseInt(strings.TrimSpace(text), 10, 64); e == nil {
@@ -381,13 +434,23 @@ func (t *tailWriter) Write(p []byte) (int, error) {
 
 var pathVerbs = []string{"MKD", "RMD", "DELE", "RNFR", "RNTO", "STOR", "RETR", "LIST", "NLST", "MDTM", "SIZE"}
 
-// set by runFtpPart: the virtual path that is also the absolute name of a host file
+// set by runFtpPart: the virtual path that is also the absolute name of a host file, and the
+// paths that begin with the host-side spelling of the root
 var absVirtual string
+var hostSpelled []string
+
+// ls-style switches in front of (or instead of) the LIST/NLST argument
+var lsSwitches = []string{"-a", "-l", "-la", "-al", "-R", "-aR", "-1", "-a /", "-la /", "-al ..", "-a .", "-la a", "-a a/..", "-a /a/b/../..", "-l b",
+	"-a ../..", "-la /..", "-a -l", "-l -a /", "-R /", "-a a/a/..", "--", "-"}
 
 func genFtpPath(r *hx.Rand, all []string) string {
 	for {
 		var p string
-		switch r.Intn(11) {
+		switch r.Intn(13) {
+		case 11:
+			p = hostSpelled[r.Intn(len(hostSpelled))]
+		case 12:
+			p = backslashPaths[r.Intn(len(backslashPaths))]
 		case 10:
 			p = []string{"../secret.txt", "a/../../secret.txt", "../../secret.txt", "secret.txt", "a/../../../secret.txt", "../SENTINEL-d/a", "./../b", absVirtual, absVirtual, "b", "a/b", "../b"}[r.Intn(12)]
 		case 0, 1, 2, 3:
@@ -431,6 +494,9 @@ func genFtpOps(r *hx.Rand, all []string, maxLen int, cwdOK bool) []Op {
 		default:
 			v := pathVerbs[r.Intn(len(pathVerbs))]
 			o := Op{V: v, P: hx.B(genFtpPath(r, all))}
+			if (v == "LIST" || v == "NLST") && r.Chance(1, 3) {
+				o.P = hx.B(lsSwitches[r.Intn(len(lsSwitches))])
+			}
 			if v == "STOR" && r.Chance(1, 3) {
 				// arm append mode first (APPE only sets the flag; REST sets it too)
 				if r.Bool() {
@@ -477,6 +543,16 @@ func ftpCorpus() [][]Op {
 		{{V: "REST", Z: -6}, P("RETR", "../secret.txt"), {V: "REST", Z: -6}, P("RETR", "a/../../secret.txt"), P("RETR", "../../secret.txt"), P("SIZE", "../secret.txt"), P("MDTM", "../secret.txt")},
 		{{V: "REST", Z: -100}, P("RETR", "../SENTINEL-d/a"), {V: "REST", Z: -6}, P("RETR", "secret.txt"), P("SIZE", "a/../../secret.txt"), P("MDTM", "a/../../secret.txt"), P("SIZE", "../../secret.txt"), P("NLST", "../SENTINEL-d")},
 		{{V: "REST", Z: -2000}, P("RETR", "../../secret.txt"), {V: "REST", Z: -6}, P("RETR", "a/../../../secret.txt"), {V: "REST", Z: -6}, P("RETR", "./../b")},
+		// ls-style switches at every place where the listed directory is the root or next to it
+		{P("LIST", "-a"), P("LIST", "-la"), P("LIST", "-al /"), P("NLST", "-a"), P("NLST", "-a .."), P("LIST", "-l"), P("LIST", "-R"), P("LIST", "-a a/.."), P("LIST", "-la /a/b/../..")},
+		{P("LIST", ""), P("LIST", "/"), P("LIST", ".."), P("LIST", "a"), P("LIST", "-a a"), P("LIST", "a/a"), P("NLST", "a/b"), P("LIST", "b"), P("LIST", "../SENTINEL-d"), P("LIST", "../..")},
+		// the host-side spelling of the root in front of the argument
+		{P("MKD", hostSpelled[0]+"/../made"), S(hostSpelled[0]+"/../../put.txt", "put"), P("DELE", hostSpelled[0]+"/../../secret.txt"), P("RMD", hostSpelled[0]+"/../a/a"), P("SIZE", hostSpelled[0]+"/../secret.txt"), P("LIST", hostSpelled[0]+"/.."), P("NLST", hostSpelled[0]+"/../..")},
+		{P("RNFR", "b"), P("RNTO", hostSpelled[0]+"/../../stolen"), P("RNFR", hostSpelled[0]+"/../b"), P("RNTO", "taken"), {V: "REST", Z: -100}, P("RETR", hostSpelled[0]+"/../b"), P("MDTM", hostSpelled[0]+"/../../secret.txt"), P("SIZE", strings.TrimPrefix(hostSpelled[0], "/")+"/../../secret.txt")},
+		{P("MKD", hostSpelled[0]), P("MKD", hostSpelled[0]+"/"), P("NLST", hostSpelled[0]), P("SIZE", hostSpelled[0]+"/b"), P("LIST", hostSpelled[0]+"//..//.."), P("MKD", hostSpelled[0]+"/../root/x"), P("NLST", "")},
+		// ".." delimited by backslashes is one ordinary component
+		{P("SIZE", "..\\..\\secret.txt"), P("MDTM", "..\\secret.txt"), P("LIST", "..\\.."), P("NLST", "..\\.."), P("MKD", "..\\..\\made"), S("..\\put.txt", "put"), P("DELE", "..\\..\\secret.txt"), P("RMD", "..\\a\\a")},
+		{P("RNFR", "b"), P("RNTO", "..\\..\\stolen"), P("RNFR", "..\\b"), P("RNTO", "taken"), {V: "REST", Z: -100}, P("RETR", "..\\b"), P("MKD", "a\\b"), P("NLST", ""), P("SIZE", "/..\\..\\secret.txt")},
 		{P("MKD", ""), P("LIST", ""), P("NLST", "a/../a/./a//"), P("MKD", "a/a/../../c d"), P("NLST", "/"), {V: "PWD"}},
 	}
 }
@@ -529,12 +605,27 @@ func coqFtp(id int, ops []Op, ob FtpObs) string {
 		}
 		rs = append(rs, fmt.Sprintf("(%s, %s)", hx.CoqList(codes, "N"), pay))
 	}
-	return fmt.Sprintf("mkFC %s ROOT FS0 %s %s %s %s", hx.CoqN(uint64(id)), hx.CoqList(cs, "cmd"),
-		hx.CoqList(rs, "(list N * payload)"), coqFS(ob.Final), hx.CoqBool(ob.Escape != ""))
+	var ls []string
+	ents := func(es []LEntry) string {
+		var xs []string
+		for _, e := range es {
+			xs = append(xs, fmt.Sprintf("(%s, %s)", hx.CoqStr(e.Name), hx.CoqStr(e.Meta)))
+		}
+		return hx.CoqList(xs, "(bytes * bytes)")
+	}
+	for _, f := range ob.Replies {
+		if f.Kind == "names" {
+			ls = append(ls, fmt.Sprintf("(%s, %s)", ents(f.Listed), ents(f.Truth)))
+		}
+	}
+	return fmt.Sprintf("mkFC %s ROOT FS0 %s %s %s %s %s", hx.CoqN(uint64(id)), hx.CoqList(cs, "cmd"),
+		hx.CoqList(rs, "(list N * payload)"), coqFS(ob.Final), hx.CoqBool(ob.Escape != ""),
+		hx.CoqList(ls, "(list (bytes * bytes) * list (bytes * bytes))"))
 }
 
 func runFtpPart(o hx.Opts, r *hx.Rand, w window, out, header string, all []string, replay *Input) {
 	absVirtual = w.absFile()
+	hostSpelled = hostPaths(w.root)
 	quick := o.Tier == "quick"
 	dist := map[string]int{}
 	var cases []hx.Case
@@ -606,13 +697,18 @@ func runFtpPart(o hx.Opts, r *hx.Rand, w window, out, header string, all []strin
 				[]Op{C("a/a/b"), pwd, C("../../../../../a/b"), pwd, C("../../../.."), pwd, {V: "STOR", P: hx.B("../../b"), Data: hx.B("overwrite")}, N("DELE", "../../../b")},
 				[]Op{C("a"), N("RNFR", "b"), N("RNTO", "../../../stolen"), pwd, up, N("NLST", ""), C("../ftp"), C("../SENTINEL-d"), C("/../a/a"), pwd},
 				[]Op{C("b"), pwd, C("a/b"), pwd, C("nope"), pwd, C(""), C("a/./../a//a/"), pwd, C("."), pwd},
+				// the host-side spelling of the root, and backslash-delimited "..", as directory names
+				[]Op{C(hostSpelled[0] + "/../.."), pwd, C(hostSpelled[0] + "/.."), pwd, C(hostSpelled[0]), pwd, C(hostSpelled[0] + "/../a"), pwd, N("NLST", ""), C(strings.TrimPrefix(hostSpelled[0], "/") + "/../../a"), pwd},
+				[]Op{C("..\\.."), pwd, C("a\\.."), pwd, C("/..\\..\\a"), pwd, C("a"), C("..\\..\\.."), pwd, N("LIST", "-a"), N("LIST", "-a ..")},
 				// the working directory is removed or replaced under the session
 				[]Op{C("a/a/b"), N("RMD", "/a/a/b"), pwd, N("NLST", ""), N("MKD", "x"), up, pwd, N("RMD", "../a"), up, up, pwd},
 				[]Op{C("a/a"), N("RNFR", "/a"), N("RNTO", "/c"), pwd, N("NLST", ""), up, pwd, C("/c/a"), pwd, N("RNTO", "x")})
 		}
 		seqs = append(seqs, ftpCorpus()...)
 		n, maxLen := 260, 5
-		if !quick {
+		if o.Tier == "search" {
+			n, maxLen = 800, 6
+		} else if !quick {
 			n, maxLen = 2600, 8
 		}
 		for i := 0; i < n; i++ {
